@@ -60,17 +60,63 @@ def make_top(n_atoms):
     return top
 
 
-def make_traj(tj):
+def make_traj(tj, d="."):
+    """Build the trajectory; with a "history" the object is first used the way a long-lived trajectory is
+    (saved, getters evaluated, periodic distances computed) with an initial cell, and only then given its
+    current cell through one of the public ways of assigning it.  Everything saved afterwards must hold the
+    CURRENT cell."""
     n = tj["n_atoms"]
     T = len(tj["xyz"])
     xyz = f32(tj["xyz"]).reshape(T, n, 3)
     top = make_top(n)
     time = None if tj.get("time") is None else f32(tj["time"]).astype(np.float64)
     kw = {}
-    if tj.get("cell"):
-        kw["unitcell_lengths"] = f32(tj["cell"]["lengths"]).reshape(T, 3)
-        kw["unitcell_angles"] = f32(tj["cell"]["angles"]).reshape(T, 3)
-    return md.Trajectory(xyz.copy(), top, time=time, **kw)
+    hist = tj.get("history")
+    cell = hist["initial_cell"] if hist else tj.get("cell")
+    if cell:
+        kw["unitcell_lengths"] = f32(cell["lengths"]).reshape(T, 3)
+        kw["unitcell_angles"] = f32(cell["angles"]).reshape(T, 3)
+    t = md.Trajectory(xyz.copy(), top, time=time, **kw)
+    if not hist:
+        return t
+    for k, st in enumerate(hist["steps"]):
+        if st["op"] == "save":
+            p = os.path.join(d, "hist%d%s" % (k, st["ext"]))
+            t.save(p)
+            shutil.rmtree(p) if os.path.isdir(p) else os.remove(p)
+        elif st["op"] == "vectors":
+            _ = t.unitcell_vectors
+        elif st["op"] == "volumes":
+            _ = t.unitcell_volumes
+        elif st["op"] == "distances" and n >= 2:
+            md.compute_distances(t, [[0, 1]], periodic=True)
+    L = f32(tj["cell"]["lengths"]).reshape(T, 3)
+    A = f32(tj["cell"]["angles"]).reshape(T, 3)
+    via = hist["set_via"]
+    if via == "lengths_angles":
+        t.unitcell_lengths = L
+        t.unitcell_angles = A
+    elif via == "vectors":
+        t.unitcell_vectors = md.Trajectory(xyz.copy(), top, unitcell_lengths=L, unitcell_angles=A).unitcell_vectors
+    elif via == "inplace":
+        t.unitcell_lengths[:] = L
+        t.unitcell_angles[:] = A
+    elif via == "inplace_frame":
+        for i in range(T):
+            t.unitcell_lengths[i, :] = L[i]
+            t.unitcell_angles[i, :] = A[i]
+    else:
+        raise ValueError(via)
+    return t
+
+
+def current_vectors(t):
+    """box vectors of the CURRENT lengths/angles, computed on a fresh object (no state of t involved)"""
+    if t.unitcell_lengths is None:
+        return None
+    f = md.Trajectory(t.xyz[:, :1, :].copy(), make_top(1), unitcell_lengths=np.array(t.unitcell_lengths, copy=True),
+                      unitcell_angles=np.array(t.unitcell_angles, copy=True))
+    return f.unitcell_vectors
 
 
 def err(e):
@@ -297,11 +343,12 @@ def main():
     os.makedirs(d, exist_ok=True)
     results, mem = [], []
     for tj in payload["trajs"]:
-        t = make_traj(tj)
+        t = make_traj(tj, d)
+        uv = current_vectors(t)
         m = {"time": bits64(t.time),
              "lengths": None if t.unitcell_lengths is None else bits32(t.unitcell_lengths),
              "angles": None if t.unitcell_angles is None else bits32(t.unitcell_angles),
-             "uv": None if t.unitcell_vectors is None else bits32(t.unitcell_vectors)}
+             "uv": None if uv is None else bits32(uv)}
         mem.append(m)
         for sv in tj["saves"]:
             results.append(run_save(t, tj, sv, d))
